@@ -131,3 +131,260 @@ Proof.
   - rewrite (denote_stable _ _ _ Hw He Hv).
     symmetry. apply denote_stable; [exact Hw|apply trunc_ext|exact Hv].
 Qed.
+
+Lemma keeps_trunc0 st st' c nl : AINV st ->
+  WF (trunc (hp (a_al st)) c) -> Forall (vnode (trunc (hp (a_al st)) c)) (take_N nl (a_nodes st)) ->
+  nl <= nlen (a_nodes st) -> hp (a_al st') = trunc (hp (a_al st)) c ->
+  a_nodes st' = take_N nl (a_nodes st) -> keeps st st'.
+Proof.
+  intros Hi Hw Hv Hnl Hh Hn. eapply (keeps_trunc st st' c nl []); eauto using ext_refl.
+  now rewrite app_nil_r.
+Qed.
+
+(* ------------------------------------------------------------------ one step *)
+
+From Clvm Require Import Proofs.IntEncProofs Proofs.AllocRestore.
+
+Definition wf_op (o : op) : Prop := match o with ONewAtom b => wf_bytes b = true | _ => True end.
+
+Lemma a_fail_inv st e : AINV st -> a_dead (fst (a_fail st e)) = false ->
+  AINV (fst (a_fail st e)) /\ keeps st (fst (a_fail st e)).
+Proof.
+  intros Hi. unfold a_fail. destruct (is_panic e); cbn; [discriminate|]. intros _.
+  split; [exact Hi|]. apply keeps_same; auto.
+Qed.
+
+Lemma nth_N_In {A} (l : list A) i x : nth_N l i = Some x -> In x l.
+Proof. unfold nth_N. apply nth_error_In. Qed.
+
+Lemma get_all_Forall {A} (P : A -> Prop) (l : list A) : Forall P l -> forall is xs, get_all l is = Some xs -> Forall P xs.
+Proof.
+  intros Hl. induction is as [|i r IH]; intros xs H; cbn in H.
+  - apply Some_inj in H. subst. constructor.
+  - destruct (nth_N l i) eqn:E; [|discriminate]. destruct (get_all l r) eqn:G; [|discriminate].
+    apply Some_inj in H. subst. constructor; [|now apply IH].
+    rewrite Forall_forall in Hl. apply Hl. eapply nth_N_In; eauto.
+Qed.
+
+Lemma wf_skipn k (b : bytes) : wf_bytes b = true -> wf_bytes (skipn k b) = true.
+Proof.
+  intros H. unfold wf_bytes in *. rewrite forallb_forall in *. intros x Hx. apply H. eapply In_skipn_l; eauto.
+Qed.
+
+Lemma strip_suffix s : exists k, strip_leading_zeros s = skipn k s.
+Proof.
+  induction s as [|x r IH]; [exists O; reflexivity|].
+  cbn [strip_leading_zeros]. destruct x; [|exists O; reflexivity].
+  destruct r as [|y r']; [exists 1%nat; reflexivity|].
+  destruct (128 <=? y); [exists O; reflexivity|]. destruct IH as [k Hk]. exists (S k). exact Hk.
+Qed.
+
+Lemma wf_u64_bytes v : wf_bytes (u64_bytes v) = true.
+Proof. unfold u64_bytes. apply wf_skipn. cbn [wf_bytes forallb]. fold (wf_bytes (be_bytes 8 v)). now rewrite AllocOps.be_bytes_wf. Qed.
+
+Lemma wf_i64_bytes z : wf_bytes (i64_bytes z) = true.
+Proof. unfold i64_bytes. destruct (0 <=? z)%Z; [apply wf_u64_bytes|]. apply wf_skipn, AllocOps.be_bytes_wf. Qed.
+
+Lemma wf_number_bytes z : wf_bytes (strip_leading_zeros (to_signed_bytes_be z)) = true.
+Proof.
+  destruct (strip_suffix (to_signed_bytes_be z)) as [k ->]. apply wf_skipn.
+  unfold to_signed_bytes_be. destruct z; [reflexivity| |]; apply bytes_of_int_wf.
+Qed.
+
+(* every allocation of an atom from well-formed bytes *)
+Lemma step_new_atom st b : AINV st -> wf_bytes b = true ->
+  a_dead (fst (a_ret_node st (new_atom (a_al st) b))) = false ->
+  AINV (fst (a_ret_node st (new_atom (a_al st) b))) /\ keeps st (fst (a_ret_node st (new_atom (a_al st) b))).
+Proof.
+  intros Hi Hb. pose proof (new_atom_spec (a_al st) b (ai_ok _ Hi) Hb) as S. unfold a_ret_node.
+  destruct (new_atom (a_al st) b) as [[al n]|e]; [|apply a_fail_inv; exact Hi].
+  destruct S as (_ & _ & S3 & S4 & S5 & _ & (S7 & _)). cbn [fst]. intros _. split.
+  - apply ainv_alloc; assumption.
+  - eapply keeps_ext; [exact Hi|exact S4|reflexivity].
+Qed.
+
+Lemma step_new_small st v : AINV st ->
+  a_dead (fst (a_ret_node st (new_small_number (a_al st) v))) = false ->
+  AINV (fst (a_ret_node st (new_small_number (a_al st) v))) /\ keeps st (fst (a_ret_node st (new_small_number (a_al st) v))).
+Proof.
+  intros Hi. destruct (NODE_PTR_IDX_MASK <? v) eqn:E.
+  - unfold new_small_number. rewrite E. unfold a_ret_node. apply a_fail_inv. exact Hi.
+  - rewrite new_small_number_spec by (try apply (ai_ok _ Hi); lia).
+    apply step_new_atom; [exact Hi|apply AllocOps.be_bytes_wf].
+Qed.
+
+Lemma substr_pair_err fx a i s e : exists er, new_substr_gen fx a (PairP i) s e = Err er /\ is_panic er = false.
+Proof.
+  unfold new_substr_gen, check_atom_limit. destruct (atoms_len a + ghost_atoms a =? MAX_NUM_ATOMS); cbn; eauto.
+Qed.
+
+Theorem ainv_step fx st o : AINV st -> wf_op o ->
+  a_dead (fst (a_step fx st o)) = false -> (fx = true \/ a_f2 (fst (a_step fx st o)) = false) ->
+  AINV (fst (a_step fx st o)) /\ keeps st (fst (a_step fx st o)).
+Proof.
+  intros Hi Hwf. unfold a_step. rewrite (ai_live _ Hi).
+  pose proof (ai_ok _ Hi) as Hok. pose proof (ai_nodes _ Hi) as Hns. pose proof (ai_cps _ Hi) as Hcps.
+  assert (Hskip : AINV st /\ keeps st st) by (split; [exact Hi|apply keeps_same; auto]).
+  rewrite Forall_forall in Hns.
+  destruct o; cbn [a_step_live].
+  - (* new_atom *) intros Hd _. apply step_new_atom; assumption.
+  - intros Hd _. apply step_new_small; assumption.
+  - intros Hd _. apply step_new_atom; [assumption|apply wf_u64_bytes|assumption].
+  - intros Hd _. apply step_new_atom; [assumption|apply wf_i64_bytes|assumption].
+  - (* new_number *) intros Hd _. unfold new_number in *.
+    destruct ((0 <=? z)%Z && (z <=? Z.of_N NODE_PTR_IDX_MASK)%Z).
+    + apply step_new_small; assumption.
+    + apply step_new_atom; [assumption|apply wf_number_bytes|assumption].
+  - intros Hd _. unfold new_malachite_number, new_number in *.
+    destruct ((0 <=? z)%Z && (z <=? Z.of_N NODE_PTR_IDX_MASK)%Z).
+    + apply step_new_small; assumption.
+    + apply step_new_atom; [assumption|apply wf_number_bytes|assumption].
+  - (* new_pair *)
+    destruct (nth_N (a_nodes st) i) as [x|] eqn:Ex; [|intros; exact Hskip].
+    destruct (nth_N (a_nodes st) j) as [y|] eqn:Ey; [|intros; exact Hskip].
+    pose proof (new_pair_spec (a_al st) x y Hok (Hns _ (nth_N_In _ _ _ Ex)) (Hns _ (nth_N_In _ _ _ Ey))) as S.
+    unfold a_ret_node. destruct (new_pair (a_al st) x y) as [[al n]|e]; [|intros Hd _; apply a_fail_inv; assumption].
+    destruct S as (_ & S2 & S3 & S4 & _ & _ & (S7 & _)). cbn [fst]. intros _ _. split.
+    + apply ainv_alloc; assumption.
+    + eapply keeps_ext; [exact Hi|exact S3|reflexivity].
+  - (* new_substr *)
+    destruct (nth_N (a_nodes st) i) as [x|] eqn:Ex; [|intros; exact Hskip].
+    pose proof (Hns _ (nth_N_In _ _ _ Ex)) as Hx.
+    destruct (denote_total _ _ (aok_wf _ Hok) Hx) as [t Ht].
+    destruct t as [b|tl tr].
+    + pose proof (new_substr_spec fx (a_al st) x b s e Hok Hx Ht) as S.
+      destruct (new_substr_gen fx (a_al st) x s e) as [[[al n] path]|er]; [|intros Hd _; apply a_fail_inv; assumption].
+      cbn [fst a_f2]. intros _ Hf2. destruct S as (_ & _ & _ & S).
+      assert (S' : ext (hp (a_al st)) (hp al) /\ vnode (hp al) n /\ AOK al /\ heap_limit al = heap_limit (a_al st)).
+      { destruct path.
+        - destruct S as (S1 & S2 & _ & S4 & (S5 & _)). auto.
+        - destruct S as (S1 & S2 & _ & S4 & (S5 & _)). auto.
+        - destruct Hf2 as [->|Hf2]; [|rewrite orb_true_r in Hf2; discriminate].
+          destruct (S eq_refl) as (S1 & S2 & _ & S4 & (S5 & _)). auto. }
+      destruct S' as (S1 & S2 & S4 & S5). split.
+      * apply ainv_alloc; assumption.
+      * eapply keeps_ext; [exact Hi|exact S1|reflexivity].
+    + pose proof (denote_atom_or_pair _ _ _ Ht) as K. destruct x as [k|k|k]; try (destruct K as [b K]; discriminate).
+      destruct (substr_pair_err fx (a_al st) k s e) as (er & -> & Hp).
+      intros _ _. unfold a_fail. rewrite Hp. exact Hskip.
+  - (* new_concat *)
+    destruct (get_all (a_nodes st) is) as [xs|] eqn:Ex; [|intros; exact Hskip].
+    assert (Hxs : Forall (vnode (hp (a_al st))) xs).
+    { eapply get_all_Forall; [|exact Ex]. apply Forall_forall. exact Hns. }
+    pose proof (new_concat_spec (a_al st) size xs Hok Hxs) as S.
+    unfold a_ret_node. destruct (new_concat (a_al st) size xs) as [[al n]|e]; [|intros Hd _; apply a_fail_inv; assumption].
+    destruct S as (_ & _ & S3 & S4 & S5 & (S6 & _) & _). cbn [fst]. intros _ _. split.
+    + apply ainv_alloc; assumption.
+    + eapply keeps_ext; [exact Hi|exact S4|reflexivity].
+  - (* add_ghost_atom *)
+    pose proof (add_ghost_atom_spec (a_al st) n Hok) as S. unfold a_ret_unit.
+    destruct (add_ghost_atom (a_al st) n) as [al|e]; [|intros Hd _; apply a_fail_inv; assumption].
+    destruct S as (_ & S2 & S3 & (S4 & _)). cbn [fst]. intros _ _. split.
+    + apply ainv_ghost; assumption.
+    + apply keeps_same; auto.
+  - pose proof (add_ghost_pair_spec (a_al st) n Hok) as S. unfold a_ret_unit.
+    destruct (add_ghost_pair (a_al st) n) as [al|e]; [|intros Hd _; apply a_fail_inv; assumption].
+    destruct S as (_ & S2 & S3 & (S4 & _)). cbn [fst]. intros _ _. split.
+    + apply ainv_ghost; assumption.
+    + apply keeps_same; auto.
+  - pose proof (remove_ghost_pair_spec (a_al st) n Hok) as S. unfold a_ret_unit.
+    destruct (remove_ghost_pair (a_al st) n) as [al|e]; [|intros Hd _; apply a_fail_inv; assumption].
+    destruct S as (S2 & S3 & S4 & _). cbn [fst]. intros _ _. split.
+    + apply ainv_ghost; assumption.
+    + apply keeps_same; auto.
+  - (* checkpoint *)
+    cbn [fst]. intros _ _. split; [|apply keeps_same; auto].
+    destruct (checkpoint_of_counts (a_al st) (aok_counts _ Hok)) as (C1 & C2 & C3 & C4).
+    split; cbn [a_dead a_al a_nodes a_cps]; [reflexivity|exact Hok|apply Forall_forall; exact Hns|].
+    cbn [cps_ok cp_tcp cp_nl cp_counts_ok].
+    assert (Hid : trunc (hp (a_al st)) (c_inner (checkpoint_of (a_al st))) = hp (a_al st)).
+    { apply trunc_id; rewrite ?C2, ?C3, ?C4; unfold u8_len, atoms_len, pairs_len; lia. }
+    rewrite Hid, take_N_all by lia.
+    refine (conj _ (conj _ (conj _ (conj (aok_wf _ Hok) (conj _ Hcps))))).
+    + unfold tcp_le. rewrite C2, C3, C4. unfold u8_len, atoms_len, pairs_len. lia.
+    + lia.
+    + destruct (aok_counts _ Hok) as (Q1 & Q2 & Q3 & Q4). unfold counts in C1.
+      apply pair_equal_spec in C1. destruct C1 as [C1 X3].
+      apply pair_equal_spec in C1. destruct C1 as [X1 X2]. lia.
+    + apply Forall_forall. exact Hns.
+  - (* transparent checkpoint *)
+    cbn [fst]. intros _ _. split; [|apply keeps_same; auto].
+    destruct (counts_u32 _ (aok_counts _ Hok)) as (U1 & U2 & U3).
+    split; cbn [a_dead a_al a_nodes a_cps]; [reflexivity|exact Hok|apply Forall_forall; exact Hns|].
+    cbn [cps_ok cp_tcp cp_nl cp_counts_ok].
+    assert (Hid : trunc (hp (a_al st)) (transparent_checkpoint (a_al st)) = hp (a_al st)).
+    { apply trunc_id; cbn; rewrite ?U1, ?U2, ?U3; unfold u8_len, atoms_len, pairs_len; lia. }
+    rewrite Hid, take_N_all by lia.
+    refine (conj _ (conj _ (conj I (conj (aok_wf _ Hok) (conj _ Hcps))))).
+    + unfold tcp_le. cbn. rewrite U1, U2, U3. unfold u8_len, atoms_len, pairs_len. lia.
+    + lia.
+    + apply Forall_forall. exact Hns.
+  - (* restore_checkpoint *)
+    destruct (nth_N (a_cps st) k) as [[c nl|c nl]|] eqn:Ek; try (intros; exact Hskip).
+    destruct (cps_ok_nth _ _ _ _ _ _ Hcps Ek) as (A & B & (C1 & C2 & C3) & D & E & F).
+    cbn [cp_tcp cp_nl] in *.
+    destruct (restore_spec (a_al st) c Hok A D C1 C2 C3) as (a1 & R1 & R2 & R3 & R4 & _).
+    rewrite R1. cbn [fst]. intros _ _. split.
+    + split; cbn [a_dead a_al a_nodes a_cps]; [reflexivity|exact R3|rewrite R2; exact E|rewrite R2, R4; exact F].
+    + apply (keeps_trunc0 st _ (c_inner c) nl Hi D E B); [cbn; exact R2|reflexivity].
+  - (* restore_transparent_checkpoint *)
+    destruct (nth_N (a_cps st) k) as [[c nl|c nl]|] eqn:Ek; try (intros; exact Hskip).
+    destruct (cps_ok_nth _ _ _ _ _ _ Hcps Ek) as (A & B & _ & D & E & F).
+    cbn [cp_tcp cp_nl] in *.
+    destruct (restore_t_spec (a_al st) c Hok A D) as (a1 & R1 & R2 & R3 & (R4 & _) & _).
+    rewrite R1. cbn [fst]. intros _ _. split.
+    + split; cbn [a_dead a_al a_nodes a_cps]; [reflexivity|exact R3|rewrite R2; exact E|rewrite R2, R4; exact F].
+    + apply (keeps_trunc0 st _ c nl Hi D E B); [cbn; exact R2|reflexivity].
+  - (* maybe_restore_with_node *)
+    destruct (nth_N (a_cps st) k) as [[c nl|c nl]|] eqn:Ek; try (intros; exact Hskip).
+    destruct (nth_N (a_nodes st) i) as [x|] eqn:Ex; [|intros; exact Hskip].
+    pose proof (Hns _ (nth_N_In _ _ _ Ex)) as Hx.
+    destruct (cps_ok_nth _ _ _ _ _ _ Hcps Ek) as (A & B & _ & D & E & F).
+    cbn [cp_tcp cp_nl] in *.
+    pose proof (maybe_restore_spec (a_al st) c x Hok A D Hx) as S.
+    destruct (maybe_restore_with_node (a_al st) c x) as [al' r]. cbn [fst snd] in S.
+    destruct r as [[| n |]|er]; cbn [mr_post] in S.
+    + (* NoReplace *)
+      destruct S as (S1 & S2 & (S3 & _) & S4 & S5). cbn [fst]. intros _ _. split.
+      * split; cbn [a_dead a_al a_nodes a_cps]; [reflexivity|exact S1| |].
+        -- apply Forall_app. split; [rewrite S2; exact E|constructor; [exact S4|constructor]].
+        -- rewrite S3. rewrite S2. rewrite <- (app_nil_r (skipn (N.to_nat k) (a_cps st))) at 1.
+           rewrite app_nil_r. eapply cps_ok_ext; [apply ext_refl|exact F].
+      * apply (keeps_trunc st _ c nl [x] (trunc (hp (a_al st)) c) Hi D E B (ext_refl _)); [cbn; exact S2|reflexivity].
+    + (* Replace *)
+      destruct S as (S1 & S2 & (S3 & _) & S4 & S5). cbn [fst]. intros _ _. split.
+      * split; cbn [a_dead a_al a_nodes a_cps]; [reflexivity|exact S1| |].
+        -- apply Forall_app. split; [|constructor; [exact S4|constructor]].
+           eapply Forall_impl; [|exact E]. intros y Hy. eapply vnode_ext; eauto.
+        -- rewrite S3. eapply cps_ok_ext; [exact S2|exact F].
+      * apply (keeps_trunc st _ c nl [n] (hp al') Hi D E B S2); reflexivity.
+    + (* Aborted: nothing restored, the newer nodes and checkpoints are given up *)
+      subst al'. cbn [fst]. intros _ _. split.
+      * split; cbn [a_dead a_al a_nodes a_cps]; [reflexivity|exact Hok| |].
+        -- apply Forall_app. split; [|constructor; [exact Hx|constructor]].
+           apply Forall_take. apply Forall_forall. exact Hns.
+        -- eapply cps_ok_ext; [apply trunc_ext|exact F].
+      * exists nl. split; [exact B|]. split; [exists [x]; reflexivity|].
+        intros y Hy. cbn [a_al]. split; [|reflexivity]. apply Hns.
+        destruct (take_N_split nl (a_nodes st)) as [r Hr]. rewrite Hr. apply in_or_app. now left.
+    + (* "invalid atom byte range": the restored state *)
+      destruct S as (-> & S1 & S2 & S3 & _). cbn [is_panic fst]. intros _ _. split.
+      * split; cbn [a_dead a_al a_nodes a_cps]; [reflexivity|exact S1|rewrite S2; exact E|rewrite S2, S3; exact F].
+      * apply (keeps_trunc0 st _ c nl Hi D E B); [cbn; exact S2|reflexivity].
+  - (* reads *)
+    destruct (nth_N (a_nodes st) i); [|intros; exact Hskip]. unfold a_ret_read.
+    destruct (bind _ _); [intros; exact Hskip|intros Hd _; apply a_fail_inv; assumption].
+  - destruct (nth_N (a_nodes st) i); [|intros; exact Hskip]. unfold a_ret_read.
+    destruct (bind _ _); [intros; exact Hskip|intros Hd _; apply a_fail_inv; assumption].
+  - destruct (nth_N (a_nodes st) i); [|intros; exact Hskip].
+    destruct (nth_N (a_nodes st) j); [|intros; exact Hskip]. unfold a_ret_read.
+    destruct (bind _ _); [intros; exact Hskip|intros Hd _; apply a_fail_inv; assumption].
+  - destruct (nth_N (a_nodes st) i); [|intros; exact Hskip]. unfold a_ret_read.
+    destruct (bind _ _); [intros; exact Hskip|intros Hd _; apply a_fail_inv; assumption].
+  - destruct (nth_N (a_nodes st) i); [|intros; exact Hskip]. unfold a_ret_read.
+    destruct (bind _ _); [intros; exact Hskip|intros Hd _; apply a_fail_inv; assumption].
+  - destruct (nth_N (a_nodes st) i); [|intros; exact Hskip]. unfold a_ret_read.
+    destruct (bind _ _); [intros; exact Hskip|intros Hd _; apply a_fail_inv; assumption].
+  - destruct (nth_N (a_nodes st) i); [|intros; exact Hskip]. unfold a_ret_read.
+    destruct (bind _ _); [intros; exact Hskip|intros Hd _; apply a_fail_inv; assumption].
+Qed.
